@@ -47,6 +47,9 @@ func (g *c04gen) program() string {
 		"a + g1 + g0",      // two globals
 		"len(str(a)) + b",  // grol-defined helper
 		"if a <= 0 { 0 } else { a + self(a - 1, b) }", // recursion
+		"if a <= 0 { 0 } else { g0 + self(a - 1, b) }", // recursion whose every level reads a global before recursing
+		"y = g1; h = func() { g1 * 2 }; y + h() + a",   // a lambda reading the global its parent already read
+		"r = catch(if a > 1 { error(\"no\", g0) } else { a }); if r.err { -1 } else { r.value }", // caught error depending on a global
 	}
 	nLeaf := 3 + g.r.Intn(3)
 	var leaves []string
@@ -120,6 +123,9 @@ func TestVerifBoundedMemo(t *testing.T) {
 		"a=[1]\nfunc f(i){a[i]}\nprintln(f(0))\na=[2]\nprintln(f(0))\n",
 		"func f(a){ g = func(){a}; g() }\nprintln(f(1), f(2), f(1))\n",
 		"func e(x){ if x>1 {error(\"boom\")} else {x} }\nprintln(e(0))\nprintln(e(0))\ne(2)\n",
+		"x=1\nfunc f(n){ if n<=0 {return 0}; x + f(n-1) }\nprintln(f(3))\nx=10\nprintln(f(2), f(1))\n",
+		"x=1\nfunc outer(){ y=x; g=func(){println(\"in g\"); x*2}; y+g() }\nprintln(outer())\nx=5\nprintln(outer())\n",
+		"limit=3\nfunc chk(v){ if v > limit {error(\"rejected\", v)} else {v} }\nfunc safe(v){ r = catch(chk(v)); if r.err {println(\"rejected\", v); -1} else {r.value} }\nprintln(safe(5))\nlimit=10\nprintln(safe(5))\n",
 	}
 	check := func(desc, src string) {
 		evals += 2
